@@ -152,7 +152,7 @@ func TestC02_ManyMessages(t *testing.T) {
 		idPos := 0
 		if injectIdentity {
 			idPos = g.Pick("identityPos", n)
-			pks[idPos] = identityKeys(g, blsKey{x: xs[0], pk: decodeSK(g, xs[0]).PublicKey()})[g.Pick("identityKind", 4)]
+			pks[idPos] = identityKeys(g, blsKey{x: xs[0], pk: decodeSK(g, xs[0]).PublicKey()})[g.Pick("identityKind", numIdentityKinds)]
 			g.Class("identityKeyInList")
 		}
 		for _, c := range cands {
